@@ -76,6 +76,7 @@ def offset_queries(t, path):
     ops = list(base)
     for off in range(s, e + 1):
         ops.append("tao:%d:%d" % (reg, off))
+        ops.append("taoh:%d:%d" % (reg, off))
     for a in range(s, e + 1):
         for b in range(a, e + 1):
             ops.append("cov:%d:%d:%d" % (reg, a, b))
